@@ -10,10 +10,11 @@
     fields plus a UTC offset; `Ts.loc` / `Ts.off` (both µs).  Python keeps the LOCAL fields
     in range; the UTC instant `loc - off` may lie up to a day outside.
   * A `DurationType` is a `timedelta`: an `Int` number of microseconds.
-  * The floats that the code goes through (`timedelta.total_seconds()`, `float(text) * scale`,
-    `fsum`, `timedelta(seconds=float)`) are modelled EXACTLY as dyadic rationals `Dy` with
-    IEEE-754 binary64 round-to-nearest-even (`rnd`), unbounded exponent (no overflow /
-    subnormals: the magnitudes that occur are between 1e-40 and 1e40).
+  * The floats that the code still goes through (`timedelta.total_seconds()` in `__str__`, in the
+    duration getters and in `int(timestamp)`) are modelled EXACTLY as dyadic rationals `Dy` with
+    IEEE-754 binary64 round-to-nearest-even (`rnd`), unbounded exponent (no overflow / subnormals:
+    the magnitudes that occur are between 1e-7 and 1e18). Duration TEXT is summed in exact fractions
+    (`Q`), as the code does since the fix of D52.
   * The calendar mirrors CPython's `_ymd2ord` / `_ord2ymd` (Lib/_pydatetime.py), factored
     through the 400-year era so that proofs can use periodicity.  `datetime` itself is
     trusted and swept against this model on every run.
@@ -73,15 +74,6 @@ def leInt (x : Dy) (z : Int) : Bool := decide (x.num ≤ z * ((2 ^ x.k : Nat) : 
 def geInt (x : Dy) (z : Int) : Bool := decide (z * ((2 ^ x.k : Nat) : Int) ≤ x.num)
 /-- `fl(x * p / q)` for an exact rational factor -/
 def mulQ (x : Dy) (p : Int) (q : Nat) : Dy := rnd (x.num * p) (2 ^ x.k * q)
-/-- exact sum of doubles as a fraction over `2^K` -/
-def sumExact : List Dy → Dy
-  | [] => ⟨0, 0⟩
-  | x :: xs =>
-    let r := sumExact xs
-    let K := max x.k r.k
-    ⟨x.num * ((2 ^ (K - x.k) : Nat) : Int) + r.num * ((2 ^ (K - r.k) : Nat) : Int), K⟩
-/-- `math.fsum`: the correctly rounded sum -/
-def fsum (xs : List Dy) : Dy := let s := sumExact xs; rnd s.num (2 ^ s.k)
 end Dy
 
 /-- round-half-even of the rational `n / d` to an integer (sign-symmetric) -/
